@@ -8,16 +8,16 @@ pub const REQUIRED: &[&str] = &[
     "CollapsibleMarginSet.ZERO", "CollapsibleMarginSet.from_margin", "CollapsibleMarginSet.collapse_with_margin",
     "CollapsibleMarginSet.collapse_with_set", "CollapsibleMarginSet.resolve",
     "LayoutOutput.HIDDEN", "LayoutOutput.DEFAULT", "LayoutOutput.from_sizes_and_baselines", "LayoutOutput.from_sizes", "LayoutOutput.from_outer_size",
-    "Layout.new", "Layout.with_order",
+    "Layout.new", "Layout.with_order", "LayoutInput.HIDDEN",
 ];
 
 pub fn extract(repo: &str, w: &mut World) -> Result<String, String> {
     let file = parse_file(&format!("{repo}/src/tree/layout.rs"))?;
     let env = CfgEnv::default_build();
-    for n in ["RunMode", "SizingMode", "RequestedAxis", "CollapsibleMarginSet", "LayoutOutput", "Layout"] {
+    for n in ["RunMode", "SizingMode", "RequestedAxis", "CollapsibleMarginSet", "LayoutInput", "LayoutOutput", "Layout"] {
         check_adt(w, &file.items, &env, n, false)?;
     }
-    let mut out = Out::new("Gen.LayoutTypes", "src/tree/layout.rs", &["TaffyVerif.Generated.Geometry"]);
+    let mut out = Out::new("Gen.LayoutTypes", "src/tree/layout.rs", &["TaffyVerif.Generated.Geometry", "TaffyVerif.Generated.AvailableSpace"]);
     let mut v = vec![];
     impls(&file.items, &env, &[], &mut v)?;
     for info in &v {
@@ -25,7 +25,7 @@ pub fn extract(repo: &str, w: &mut World) -> Result<String, String> {
             continue;
         }
         let n = info.self_ty.as_str();
-        if ["CollapsibleMarginSet", "LayoutOutput", "Layout"].contains(&n) {
+        if ["CollapsibleMarginSet", "LayoutInput", "LayoutOutput", "Layout"].contains(&n) {
             impl_items(&mut out, w, info, &env, n, Some(Ty::adt(n, vec![])), &HashMap::new(), &format!("{n}."), REQUIRED, &[])?;
         }
     }
